@@ -66,7 +66,7 @@ def crashMonStep (w : CrMon) (ws : List String) : CrMon × String :=
   if obsw == ["panic"] then (w, "bad panic") else
   match opw with
   | ["open", kind, sid] =>
-      (match parseObs obsw with
+      (match parseStoreObs obsw with
       | some (got, _) => (alSet w sid { kind := kind }, verdict (monOpen got))
       | none => (w, "bad-op"))
   | ["crash", sid, _, _, mode, _] =>
@@ -79,7 +79,7 @@ def crashMonStep (w : CrMon) (ws : List String) : CrMon × String :=
         else (w, verdict (withCtx r.window (monRecovered cs.pre cs.post cs.inflight (cs.savedPre ++ cs.savedPost) r)))
       | _, _ => (w, "bad-op"))
   | ["crashresume", sid, _, _, mode] =>
-      (match w.lookup sid, parseObs obsw with
+      (match w.lookup sid, parseStoreObs obsw with
       | some cs, some (got, rest) =>
         -- rest = f hdr body snd tgt sess at P C K all CLS N hex*
         (match rest.dropWhile (· ≠ "at") with
@@ -102,7 +102,7 @@ def crashMonStep (w : CrMon) (ws : List String) : CrMon × String :=
         | _ => if got.ok then (w, "bad-op") else (w, "bad reopen_fails{phase=resume}"))
       | _, _ => (w, "bad-op"))
   | "sqlfail" :: sid :: _ :: rest =>
-      (match w.lookup sid, parseStoreOp rest, parseObs obsw with
+      (match w.lookup sid, parseStoreOp rest, parseStoreObs obsw with
       | some cs, some (_, o), some (got, _) =>
         if got.ok then
           let cs' : CrSess := { cs with pre := cs.post, post := (cs.post.step o).1 }
@@ -113,7 +113,7 @@ def crashMonStep (w : CrMon) (ws : List String) : CrMon × String :=
           (w, verdict bad)
       | _, _, _ => (w, "bad-op"))
   | _ =>
-    match parseStoreOp opw, parseObs obsw with
+    match parseStoreOp opw, parseStoreObs obsw with
     | some (sid, o), some (got, _) =>
       (match w.lookup sid with
       | none => (w, "bad-op")
